@@ -214,14 +214,14 @@ def seqFrom (cache : Cache) (proto : Nat) (toks : List String) : Cache × Option
   | w :: rest =>
     match prefix? w with
     | some c =>
-      match cache.lookup (proto, c) with
+      match cache.lookup (wordsOfProto proto, c) with
       | some sh =>
         -- the digest of the G token is recomputed only when somebody looks at it (seq lines)
         (cache, (seqRun sh rest []).map (fun r => (r.1, "G" :: r.2)))
       | none =>
         match seqTok (Streams.init (wordsOfProto proto)) w with
         | some (sh, a) =>
-          (((proto, c), sh) :: cache.take 300, (seqRun sh rest []).map (fun r => (r.1, a :: r.2)))
+          (((wordsOfProto proto, c), sh) :: cache.take 300, (seqRun sh rest []).map (fun r => (r.1, a :: r.2)))
         | none => (cache, none)
     | none => (cache, seqRun (Streams.init (wordsOfProto proto)) toks [])
   | [] => (cache, seqRun (Streams.init (wordsOfProto proto)) [] [])
@@ -340,8 +340,9 @@ def step (cache : Cache) (ws : List String) : Cache × String :=
     | some proto, some l =>
       if l.contains (.op (.clear 0)) then (cache, "n/a")
       else
-        let n := wordsOfProto proto
-        (cache, if seqMonH (64 * n) (Streams.init n) (specInit (64 * n)).tbl 0 l then "ok" else "violated:model")
+        -- the model of `New(proto)` judged by the specification with the capacity the property prescribes for
+        -- the protocol version (C08_sequential_spec_by_protocol)
+        (cache, if seqMonH (specCap proto) (Streams.init (wordsOfProto proto)) (specInit (specCap proto)).tbl 0 l then "ok" else "violated:model")
     | _, _ => (cache, "bad-op")
   | _ => (cache, "bad-op")
 
